@@ -20,6 +20,7 @@ pub fn lib_name(c: &EmitCase) -> String { c.cfg.name.to_case(Case::Pascal).to_ca
 pub fn known_compile_triggers(h: &hir::HirSpec) -> Vec<&'static str> {
     let mut t = vec![];
     if h.operations.iter().any(op_has_duplicate_idents) { t.push("duplicateInputIdent"); }
+    if h.operations.iter().any(op_has_nested_string_list) { t.push("nestedStringListInput"); }
     if h.operations.iter().any(|o| op_has_non_display_parameter(h, o)) { t.push("nonDisplayParameter"); }
     if !directly_recursive_models(h).is_empty() { t.push("directRecursiveModel"); }
     if !shadowing_models(h).is_empty() { t.push("schemaNameShadowsPrelude"); }
@@ -151,6 +152,12 @@ pub fn op_has_non_display_parameter(h: &hir::HirSpec, o: &hir::Operation) -> boo
     o.parameters.iter().any(|p| p.location != hir::Location::Body && !displayable(h, p.ty.inner_iterable().unwrap_or(&p.ty), 0))
 }
 
+/// an input that is a list of lists of strings: its borrowed form `&[&[&str]]` is converted with one `to_owned`, which does not reach the inner level
+pub fn op_has_nested_string_list(o: &hir::Operation) -> bool {
+    use mir_rust::ToRustType;
+    o.parameters.iter().any(|p| matches!(&p.ty, mir::Ty::Array(inner) if matches!(**inner, mir::Ty::Array(_)) && inner.is_reference_type()))
+}
+
 pub fn op_has_duplicate_idents(o: &hir::Operation) -> bool {
     use mir_rust::ToRustIdent;
     let mut ids: Vec<String> = o.parameters.iter().map(|p| p.name.to_rust_ident().0).collect();
@@ -230,6 +237,7 @@ fn classify_lib_error(e: &str, _c: &EmitCase, em: &Emitted) -> (String, Vec<Stri
         .and_then(|stem| em.hir.operations.iter().find(|o| mir_rust::sanitize_filename(&o.file_name()) == stem));
     if let Some(o) = file_op {
         if op_has_duplicate_idents(o) { trig.push("duplicateInputIdent".to_string()); }
+        if op_has_nested_string_list(o) && (e.contains("to_owned") || e.contains("collect") || e.contains("mismatched types")) { trig.push("nestedStringListInput".to_string()); }
         if (e.contains("to_string") || e.contains("Display")) && op_has_non_display_parameter(&em.hir, o) { trig.push("nonDisplayParameter".to_string()); }
     }
     if (tag == "recursiveType" || e.contains("recursion limit") || e.contains("infinite size")) && !directly_recursive_models(&em.hir).is_empty() { trig.push("directRecursiveModel".to_string()); }
